@@ -8,8 +8,11 @@
 package proxy
 
 import (
+	"github.com/datastax/go-cassandra-native-protocol/message"
 	"github.com/datastax/go-cassandra-native-protocol/primitive"
 )
+
+var _ message.Message // the contracts below name types of package message
 
 // ---------------------------------------------------------------------------------------------
 // C05: the documented default retry policy (README / doc comments of RetryPolicy), as a table.
@@ -174,3 +177,87 @@ func verifSpecCL(lowered string) primitive.ConsistencyLevel {
 //@   replay verifReplayRunRefusesBadConfig()
 //@   requires !$configError
 //@   ensures refused: $configError ==> result != 0
+
+// ---------------------------------------------------------------------------------------------
+// Client side of the proxy: ghost event counters
+//   c.$sent      frames the proxy itself enqueued for client c (client.send)
+//   c.$executed  requests handed to the backend path (client.execute)
+//   $reqStarted  requests started on the backend path (request.Execute called by execute)
+//   $last*       the most recent frame passed to client.send
+// The counters are defined by the functions that constitute the event (`event`, `entry-set`).
+// ---------------------------------------------------------------------------------------------
+
+//@ type proxy.client
+//@   ghost $sent int, $executed int
+//@   immutable: ctx, proxy, conn, preparedSystemQuery
+
+// The configuration is fixed when the proxy is constructed.
+//@ type proxy.Config
+//@   immutable: Version, MaxVersion, Auth, Resolver, ReconnectPolicy, RetryPolicy, IdempotentGraph, NumConns, Logger, HeartBeatInterval, ConnectTimeout, IdleTimeout, RPCAddr, DC, Tokens, Peers, UnsupportedWriteConsistencies, UnsupportedWriteConsistencyOverride, PreparedCache
+
+// C07: every cached backend session speaks exactly the (version, keyspace, compression) it is filed under.
+//@ type proxy.Proxy
+//@   immutable: ctx, logger, sessionsMu, mu, closed, sessions, clients, listeners
+//@   guarded_by sessionsMu: sessions
+//@   guarded_by mu: isConnected, isClosing, clients, listeners
+//@   invariant self.sessions != nil && self.sessionsMu != nil
+//@   invariant mapAll(self.sessions, k, v, v != nil && v.config.Version == k.version && v.config.Keyspace == k.keyspace && v.config.Compression == k.compression)
+
+// A request's identity never changes after construction; its mutable part is guarded by mu.
+//@ type proxy.request
+//@   immutable: client, session, keyspace, msg, stream, version, qp, frm, isSelect
+//@   guarded_by mu: state, done, retryCount, host
+
+//@ ghostvar $reqStarted int
+//@ ghostvar $lastMsg message.Message
+//@ ghostvar $lastStream int16
+//@ ghostvar $lastVersion primitive.ProtocolVersion
+//@ ghostvar $lastClient *client
+
+// client.send: exactly one frame, on the stream and version of the header it is given.
+//@ func proxy.client.send [C01, C09, C13]
+//@   requires c != nil && hdr != nil && c.conn != nil
+//@   event c.$sent
+//@   entry-set $lastMsg = msg; $lastStream = hdr.StreamId; $lastVersion = hdr.Version; $lastClient = c
+//@   modifies nothing
+
+// request.Execute as seen from client.execute: the request is now in the backend path (its own
+// exactly-once reply discipline is the monitor invariant of type request, see below).
+//@ ghostvar $lastReq *request
+//@ func proxy.request.Execute [C01]
+//@   requires r != nil
+//@   event $reqStarted
+//@   entry-set $lastReq = r
+//@   modifies *
+
+// Session lookup/creation touches the session table and the network, never the client's counters.
+//@ func proxy.Proxy.findSession [C07]
+//@   requires p != nil && inv(p)
+//@   ensures inv(p)
+//@   ensures session-key: result1 == nil ==> result0 != nil && result0.config.Version == version && result0.config.Keyspace == keyspace && result0.config.Compression == compression
+//@   modifies p.sessions[*]
+
+//@ func proxy.Proxy.maybeCreateSession [C07]
+//@   requires p != nil && inv(p)
+//@   ensures inv(p)
+//@   ensures session-key: result1 == nil ==> result0 != nil && result0.config.Version == version && result0.config.Keyspace == keyspace && result0.config.Compression == compression
+//@   modifies p.sessions[*]
+
+//@ iface proxycore.LoadBalancer.NewQueryPlan
+//@   ensures result != nil
+//@   modifies *
+
+//@ func proxy.client.maybeOverrideUnsupportedWriteConsistency [C12]
+//@   requires c != nil && raw != nil && body != nil
+//@   modifies *
+
+// client.execute: either one error frame to the client (no usable session) or one request started,
+// carrying the client's stream id, version and connection.
+//@ func proxy.client.execute [C01, C02, C09]
+//@   requires c != nil && raw != nil && raw.Header != nil && body != nil && c.proxy != nil && c.conn != nil && inv(c.proxy)
+//@   event c.$executed
+//@   ensures one-outcome: (c.$sent - old(c.$sent)) + ($reqStarted - old($reqStarted)) == 1
+//@   ensures c.$sent >= old(c.$sent) && $reqStarted >= old($reqStarted)
+//@   ensures request-identity: $reqStarted == old($reqStarted) + 1 ==> fresh($lastReq) && $lastReq.client == c && $lastReq.stream == old(raw.Header.StreamId) && $lastReq.version == old(raw.Header.Version) && !$lastReq.done
+//@   ensures error-identity: c.$sent == old(c.$sent) + 1 ==> $lastClient == c && $lastStream == old(raw.Header.StreamId) && $lastVersion == old(raw.Header.Version) && typeis($lastMsg, *message.ServerError)
+//@   modifies *, c.$sent, $reqStarted, $lastReq, $lastMsg, $lastStream, $lastVersion, $lastClient
